@@ -148,6 +148,10 @@ def run_harness(stage, meta, h, tier_timeout_scale=1.0):
         r["verdict"] = "fail"
     else:
         r["verdict"] = "pass"
+        try:  # keep the scratch directory small: the goto binary is only needed again for a counterexample trace
+            os.remove(binary)
+        except OSError:
+            pass
     return r
 
 
